@@ -28,7 +28,9 @@ UUID_REGEX = re.compile(
     r"^[0-9a-fA-F]{8}-[0-9a-fA-F]{4}-[0-9a-fA-F]{4}-[0-9a-fA-F]{4}-[0-9a-fA-F]{12}\Z",
 )
 TYPE_REGEX = re.compile(r'^-?[a-z0-9]+(-[a-z0-9]+)*-?\Z')
-TYPE_21_REGEX = re.compile(r'^([a-z][a-z0-9]*)+([a-z0-9-]+)*-?\Z')
+# (the same language as '^([a-z][a-z0-9]*)+([a-z0-9-]+)*-?\Z', which backtracks
+# exponentially on a long name with a bad character)
+TYPE_21_REGEX = re.compile(r'^[a-z][a-z0-9-]*\Z')
 ERROR_INVALID_ID = (
     "not a valid STIX identifier, must match <object-type>--<UUID>: {}"
 )
